@@ -41,5 +41,6 @@ for d in sorted(glob.glob("/verif/seeded/C*_*")):
     m = json.load(open(f"{d}/meta.json"))
     db = m.get("detected_by") or {}
     allrows.append({"seed": os.path.basename(d), "property": m.get("property"), "exit_code": db.get("exit_code"), "violations": db.get("violations"),
-                    "first_violation": (db.get("first_violation") or "")[:200], "note": db.get("note", "")})
+                    "first_violation": (db.get("first_violation") or "")[:200], "note": db.get("note", ""),
+                    "note_final_tree": db.get("note_final_tree", ""), "differential_on_own_base": m.get("differential_on_own_base")})
 json.dump(allrows, open("/verif/seeded/matrix.json", "w"), indent=1)
